@@ -5,6 +5,7 @@ package main
 import (
 	"fmt"
 	"net"
+	"net/netip"
 	"sort"
 	"strconv"
 	"strings"
@@ -125,6 +126,32 @@ type state struct {
 	sent     map[string]*proto.RouteUpdate
 	tr       *truth
 	newLine  string
+	// invalid: the history went through a datastore state that Calico's validation / IPAM rule out
+	// (two overlapping IP pools, two overlapping IPAM blocks).  Such cases still exercise the
+	// model/code correspondence but the order oracle does not speak about them.
+	invalid bool
+}
+
+func overlaps(a, b [2]uint32) bool {
+	l := min(a[1], b[1])
+	return maskOf(a[0], int(l)) == maskOf(b[0], int(l))
+}
+
+func (s *state) checkValid() {
+	for a := range s.tr.pools {
+		for b := range s.tr.pools {
+			if a != b && overlaps(a, b) {
+				s.invalid = true
+			}
+		}
+	}
+	for a := range s.tr.blocks {
+		for b := range s.tr.blocks {
+			if a != b && overlaps(a, b) {
+				s.invalid = true
+			}
+		}
+	}
 }
 
 func nodeName(n int) string { return fmt.Sprintf("n%02d", n) }
@@ -170,6 +197,9 @@ func mustNet(a uint32, l int) cnet.IPNet {
 		panic(err)
 	}
 	return *n
+}
+func mustPrefix(a uint32, l int) netip.Prefix {
+	return netip.MustParsePrefix(fmt.Sprintf("%s/%d", ipStr(a), l))
 }
 func b01(b bool) string {
 	if b {
@@ -420,12 +450,13 @@ func apply(s *state, op string) string {
 			p.AllowedUses = []apiv3.IPPoolAllowedUse{apiv3.IPPoolAllowedUseLoadBalancer}
 		}
 		s.tr.pools[[2]uint32{a, uint32(l)}] = sp
-		s.res.OnPoolUpdate(api.Update{KVPair: model.KVPair{Key: model.IPPoolKey{CIDR: cidr}, Value: p}})
+		s.checkValid()
+		s.res.OnPoolUpdate(api.Update{KVPair: model.KVPair{Key: model.IPPoolKey{CIDR: mustPrefix(a, l)}, Value: p}})
 		return s.drain()
 	case "pooldel":
 		a, l := atou(w[1]), atoi(w[2])
 		delete(s.tr.pools, [2]uint32{a, uint32(l)})
-		s.res.OnPoolUpdate(api.Update{KVPair: model.KVPair{Key: model.IPPoolKey{CIDR: mustNet(a, l)}}})
+		s.res.OnPoolUpdate(api.Update{KVPair: model.KVPair{Key: model.IPPoolKey{CIDR: mustPrefix(a, l)}}})
 		return s.drain()
 	case "block":
 		a, l := atou(w[1]), atoi(w[2])
@@ -459,12 +490,13 @@ func apply(s *state, op string) string {
 			}
 		}
 		s.tr.blocks[[2]uint32{a, uint32(l)}] = sp
-		s.res.OnBlockUpdate(api.Update{KVPair: model.KVPair{Key: model.BlockKey{CIDR: cidr}, Value: b}})
+		s.checkValid()
+		s.res.OnBlockUpdate(api.Update{KVPair: model.KVPair{Key: model.BlockKey{CIDR: mustPrefix(a, l)}, Value: b}})
 		return s.drain()
 	case "blockdel":
 		a, l := atou(w[1]), atoi(w[2])
 		delete(s.tr.blocks, [2]uint32{a, uint32(l)})
-		s.res.OnBlockUpdate(api.Update{KVPair: model.KVPair{Key: model.BlockKey{CIDR: mustNet(a, l)}}})
+		s.res.OnBlockUpdate(api.Update{KVPair: model.KVPair{Key: model.BlockKey{CIDR: mustPrefix(a, l)}}})
 		return s.drain()
 	case "wep":
 		host, id := atoi(w[1]), atoi(w[2])
@@ -646,7 +678,7 @@ func (s *state) kinds() map[string]string {
 // (in two different orders) must program the same kind of route for every destination as the
 // instance that lived through the history.
 func oracleOrder(h *rt.H, s *state, ops []string) {
-	if s.res == nil {
+	if s.res == nil || s.invalid {
 		return
 	}
 	apply(s, "apply")
@@ -660,14 +692,11 @@ func oracleOrder(h *rt.H, s *state, ops []string) {
 		apply(f, "apply")
 		want := f.kinds()
 		var diffs []string
-		for d, k := range want {
-			if got[d] != k {
-				diffs = append(diffs, fmt.Sprintf("%s: history=%q fresh=%q", d, got[d], k))
-			}
-		}
-		for d, k := range got {
-			if _, ok := want[d]; !ok {
-				diffs = append(diffs, fmt.Sprintf("%s: history=%q fresh=\"\"", d, k))
+		// the property speaks about: blocks with an owner (remote: direct/tunnel route, local:
+		// blackhole) and borrowed addresses recorded in a block for a remote owner.
+		for _, d := range s.propertyDsts() {
+			if got[d] != want[d] {
+				diffs = append(diffs, fmt.Sprintf("%s: history=%q fresh=%q", d, got[d], want[d]))
 			}
 		}
 		if len(diffs) > 0 {
@@ -681,6 +710,23 @@ func oracleOrder(h *rt.H, s *state, ops []string) {
 			return
 		}
 	}
+}
+
+func (s *state) propertyDsts() []string {
+	var out []string
+	for _, bk := range sortedCidrs(s.tr.blocks) {
+		b := s.tr.blocks[bk]
+		if b.aff >= 0 {
+			out = append(out, fmt.Sprintf("%d/%d", bk[0], bk[1]))
+		}
+		size := 1 << (32 - bk[1])
+		for _, a := range b.allocs {
+			if a[1] >= 0 && a[1] != b.aff && a[1] != s.me && a[0] < size && bk[1] != 32 {
+				out = append(out, fmt.Sprintf("%d/32", bk[0]+uint32(a[0])))
+			}
+		}
+	}
+	return out
 }
 
 // localV4Flapped: the history contains a state in which the LOCAL node exists without an IPv4
@@ -816,6 +862,7 @@ func oracleKinds(h *rt.H, s *state, ops []string) {
 func ip4(a, b, c, d int) uint32 { return uint32(a)<<24 | uint32(b)<<16 | uint32(c)<<8 | uint32(d) }
 
 type gen struct {
+	messy bool // overlapping pools / blocks allowed (invalid datastore states; correspondence only)
 	h     *rt.H
 	me    int
 	pt    int
@@ -835,6 +882,11 @@ func (g *gen) nodeAddr(n int) (uint32, int) {
 	}
 	return ip4(10, 0, sub, 10+n), l
 }
+
+// valid plans: pairwise non-overlapping pools / blocks (what Calico's validation and IPAM guarantee)
+var validPools = [][2]uint32{{ip4(192, 168, 0, 0), 24}, {ip4(192, 168, 1, 0), 24}, {ip4(192, 168, 2, 0), 26}, {ip4(172, 16, 0, 0), 12}, {ip4(10, 0, 0, 0), 8}}
+var validBlocks = [][2]uint32{{ip4(192, 168, 0, 0), 26}, {ip4(192, 168, 0, 64), 26}, {ip4(192, 168, 1, 0), 26},
+	{ip4(192, 168, 1, 64), 26}, {ip4(192, 168, 2, 0), 30}, {ip4(192, 168, 2, 5), 32}, {ip4(172, 16, 5, 0), 28}}
 
 var poolCidrs = [][2]uint32{{ip4(192, 168, 0, 0), 16}, {ip4(192, 168, 0, 0), 16}, {ip4(192, 168, 1, 0), 24},
 	{ip4(192, 168, 0, 0), 24}, {ip4(10, 0, 0, 0), 8}, {ip4(192, 168, 2, 0), 26}, {ip4(172, 16, 0, 0), 12}, {ip4(192, 168, 0, 0), 17}}
@@ -885,7 +937,10 @@ func (g *gen) nodeOp() string {
 
 func (g *gen) poolOp() string {
 	h := g.h
-	c := rt.Pick(h, poolCidrs)
+	c := rt.Pick(h, validPools)
+	if g.messy {
+		c = rt.Pick(h, poolCidrs)
+	}
 	if h.Chance(0.15) {
 		return fmt.Sprintf("pooldel %d %d", c[0], c[1])
 	}
@@ -913,7 +968,10 @@ func (g *gen) poolOp() string {
 
 func (g *gen) blockOp() string {
 	h := g.h
-	c := rt.Pick(h, blockCidrs)
+	c := rt.Pick(h, validBlocks)
+	if g.messy {
+		c = rt.Pick(h, blockCidrs)
+	}
 	if h.Chance(0.15) {
 		return fmt.Sprintf("blockdel %d %d", c[0], c[1])
 	}
@@ -994,6 +1052,7 @@ func genCase(h *rt.H) []string {
 	g := &gen{h: h, nodes: 2 + h.Intn(3)}
 	g.me = h.Intn(g.nodes)
 	g.pt = 1 + h.Intn(3)
+	g.messy = h.Chance(0.15)
 	eth0, _ := g.nodeAddr(g.me)
 	if h.Chance(0.1) {
 		eth0 = ip4(10, 9, 9, 9)
